@@ -343,6 +343,32 @@ def run(ctx, prog):
         ctx.inst('C03.R4', f.short, 'stable offset = self.bytes_written read before the write', r.endswith('WalWriter.bytes_written') and dom_ok,
                  'stable_offset = %s; dominates write_with_retry: %s' % (r, dom_ok))
 
+    # ------------------------------------------------------------------ R6 nothing fails between the durable append and the apply
+    ctx.rule('C03.R6', 'after the log append of a mutator succeeded, every path to a return passes the in-memory apply (exclusive doc_store acquisition), or — for '
+                       'insert — the compensating append / the write-degraded flag: no fallible step in between (rotation, bookkeeping) may turn the call into an '
+                       'Err, because the entry is already durable and would be replayed although the caller was told it failed')
+    from kvstatic.locks import LockModel as _LM
+    lm6 = _LM(prog)
+    for name in ('HnswBackend::insert', 'HnswBackend::delete', 'HnswBackend::update_metadata', 'HnswBackend::batch_delete'):
+        f = ctx.body('C03.R6', name)
+        if f is None:
+            continue
+        apps = sorted(eff.blocks(f, 'wal_append'))
+        if not apps:
+            ctx.missing('C03.R6', '%s: WAL append' % name)
+            continue
+        first = apps[0]
+        a_succ = eff.success_edges(f, [first])
+        applies = [bb for bb, a in lm6.body_acqs.get(f.id, {}).items() if a.cls == 'HnswBackend.doc_store' and a.mode in ('W', 'U') and bb in f.reach([e[1] for e in a_succ])]
+        comp_succ = eff.success_edges(f, [x for x in apps if x != first])
+        flags = [c.bb for c in f.calls if c.is_('re:Atomic.*::store') and c.args and 'wal_inconsistent' in flow.render(flow.Origin(f).of_operand(c.args[0]))]
+        starts = [e[1] for e in a_succ]
+        r_ = (f.reach(starts, avoid_blocks=applies + flags, avoid_edges=comp_succ) | set(starts)) - set(applies) - set(flags)
+        leak = [x for x in f.return_blocks() if x in r_]
+        ctx.inst('C03.R6', f.short, 'after a successful append every return is behind the apply (or the compensation)', bool(a_succ) and bool(applies) and not leak,
+                 ('a return is reachable after the append without the apply: %s' % rt.path_witness(f, rt.find_path(f, starts, leak, avoid_blocks=applies + flags, avoid_edges=comp_succ))[:7]) if leak else
+                 'apply blocks %s; compensation edges %d; flag stores %d' % (applies[:3], len(comp_succ), len(flags)))
+
     # ------------------------------------------------------------------ R5 single funnel
     ctx.rule('C03.R5', 'who-may-write: only HnswBackend::insert pushes to the document store vectors outside constructors / '
                        'compaction / recovery; only TieredEngine::{insert, bulk_load_cold_tier, reconcile_drained_hot_tier_documents} '
